@@ -37,6 +37,7 @@ def generate(rng, tier):
         for nbig in ([300, 640, 1100] if tier == "thorough" else [270 + 50 * len(regime)]):
             cases.append({"regime": regime, "segs": gen.big_timeline(rng, regime, nbig)})
     cases += gen.decimal_copies(rng, cases, (1500 if tier == "thorough" else 150), lambda c: len(c.get('segs', [])) < 50)
+    cases += gen.p3_copies(rng, cases, ['segs', 'recs'], (1000 if tier == "thorough" else 120), lambda c: len(c.get('segs', [])) < 50)
     cases += gen.far_copies(rng, cases, ['segs', 'recs'], (400 if tier == "thorough" else 60))
     return {"cases": cases, "meta": {"exhaustive": True, "small_scope_max_segments": k,
                                      "sizes": gen.stats(cases, {"n_segments": lambda c: len(c.get("segs", c.get("recs", [])))})}}
